@@ -45,6 +45,18 @@ theorem matVec_toV {n m : Nat} (A : Mat ℝ n m) (v : Vector ℝ m) :
     toM_apply]
   exact (sum_fin_eq_range (fun k => A.el i k * v.nth k)).symm
 
+/-- Two data matrices with the same in-range entries are equal. -/
+theorem mat_ext {a b : Nat} {M M' : Mat ℝ a b} (h : ∀ i k, i < a → k < b → M.el i k = M'.el i k) : M = M' := by
+  apply Vector.ext
+  intro i hi
+  apply Vector.ext
+  intro k hk
+  have := h i k hi hk
+  simpa [Mat.el, Vector.nth, Vector.nthD, hi, hk] using this
+
+theorem ofFn_el {a b : Nat} (M : Mat ℝ a b) : (Mat.ofFn fun i k => M.el i k) = M :=
+  mat_ext (fun i k hi hk => by simp [hi, hk])
+
 /-! ### columns -/
 
 theorem col_nth {n m : Nat} (A : Mat ℝ n m) (j i : Nat) :
